@@ -287,9 +287,9 @@ def run(ck):
     ok = explore(ck, binary, corpus, "corpus")
     if ck.violations:
         return
-    nsched = 80 if ck.quick() else 1200
+    nsched = 120 if ck.quick() else 1200
     nsteps = 42 if ck.quick() else 70
-    batch = 80 if ck.quick() else 300
+    batch = 120 if ck.quick() else 300
     done = 0
     while done < nsched:
         cases = []
